@@ -11,12 +11,13 @@
 
    NOT proved here (sampled by the correspondence check and the document oracle only): the block structurers
    (epytext _tokenize/parse, docutils' reST parser, napoleon), epytext's inline coloriser _colorize
-   is proved for the markup without L{...}/U{...} links only (C09_epytext_inline_conserves_partial), node2stan,
-   extract_fields (class/module variables). *)
+   is proved for all well-formed markup, links included, under a contract on its two link regexes
+   (C09_epytext_inline_conserves); node2stan and the line tokenizers are not modelled. *)
 From Coq Require Import ZArith NArith List Bool Arith String.
 From PydoctorVerif Require Import Base.Sexp Model.FieldTypes Gen.TablesC09 Model.Segments Model.Fields Model.Plaintext
-     Model.EpyInline Spec.Conserve Spec.Routing Spec.EpyMarkup Proofs.SegmentsProofs Proofs.FieldsCount Proofs.FieldsTables
-     Proofs.FieldsProofs Proofs.EpyInlineProofs.
+     Model.EpyInline Model.ExtractFields Model.RstFields Model.EpyStruct Spec.Conserve Spec.Routing Spec.EpyMarkup Spec.Extract Spec.RstSplit
+     Proofs.SegmentsProofs Proofs.FieldsCount Proofs.FieldsTables Proofs.FieldsProofs Proofs.EpyInlineProofs Proofs.ExtractProofs
+     Proofs.RstFieldsProofs Proofs.EpyStructProofs.
 Import ListNotations.
 
 (* ---- code highlighting ------------------------------------------------------------------------------------- *)
@@ -117,11 +118,14 @@ Qed.
      (a) @return/@rtype/@yield/@ytype followed by another field of the same kind,
      (b) @type x followed by another @type x,
      (c) @ivar/@cvar/@var,
-     (d) @param/@arg/@keyword x followed by another @param/@arg/@keyword x  (over-approximation, see Spec/Routing.v),
+     (d) @param/@arg/@keyword x followed by another field for the same parameter, NONE of which pydoctor warns about
+         (exact: a later @param/@arg x is always warned about, a later @keyword x only when x is in the signature or
+         already has a @type -- Spec.Routing.later_dup_warned),
      (e) @type self / @type cls of a method / class method without a @param for it --
    has its text in EXACTLY ONE row of the rendered field table, and that row is under the label its tag belongs to
    (Parameters / Returns / Yields / Raises / Warns / See Also / Note(s) / Author(s) / Present Since / Unknown Field: tag),
-   or a warning is reported on its line.  For every signature, object kind, docformat and field list.
+   or a warning is reported on its line, or (a parameter documented again further down) a warning names the parameter
+   ('Parameter "x" was already documented' / 'is documented as keyword').  For every signature, object kind, docformat and field list.
    `_partial`: the unguarded statement is false of the faithful model (the C09_fields_routed_refuted theorems below). *)
 Theorem C09_fields_routed_partial :
   forall (E : env) (fs : list field) (i : nat) (f : field),
@@ -198,6 +202,13 @@ Proof. refute. Qed.
 (* (e) @type self on a method *)
 Theorem C09_fields_routed_refuted_self : not_routed w_menv [fld "type" (Some "self"); fld "note" None] 0.
 Proof. refute. Qed.
+
+(* duplicates that ARE warned about are inside the guard: @param x twice; @param x then @keyword x (x in the signature) *)
+Example C09_fields_warned_duplicates_inside_guard :
+  let fs := [fld "param" (Some "x"); fld "param" (Some "x"); fld "keyword" (Some "x")] in
+  forallb (fun i => match nth_error fs i with Some f => negb (silently_lost w_env fs i f) | None => true end) (seq 0 3) = true /\
+  dup_reportedb (fld "param" (Some "x")) (snd (fst (render w_env fs))) = true.
+Proof. vm_compute. split; reflexivity. Qed.
 
 (* non-vacuity: a field list inside the guard, and what it renders to *)
 Definition w_fields : list field :=
@@ -289,25 +300,151 @@ Qed.
 (* ---- epytext inline markup -------------------------------------------------------------------------------------------- *)
 
 (* epytext._colorize on the text of one paragraph: for every well-formed sequence of characters, regions
-   C{..} M{..} I{..} B{..} (nested at will), literal brace groups {..}, escapes E{lb} E{rb} E{c} and symbols S{name}
+   C{..} M{..} I{..} B{..} (nested at will), literal brace groups {..}, escapes E{lb} E{rb} E{c}, symbols S{name} and
+   links L{label <target>} / U{label <target>} / L{name} / U{name} with arbitrarily marked-up labels
    (Spec.EpyMarkup.well_formed: no stray brace, known region letter, valid codes, no literal brace group right after a
-   capital letter), and whatever the two regex oracles answer: no error is reported and the text of the tree that
+   capital letter; a link's target / name is one the oracle accepts): no error is reported and the text of the tree that
    _to_node turns into docutils nodes is the written text with the delimiters removed, escapes and symbols replaced by
-   their character, everything else unchanged and in order.
-   `_partial`: L{...} and U{...} (whose label/target split is two regular expressions) are not covered by the theorem;
-   they are covered by the model/implementation correspondence and the generated-markup oracle only. *)
-Theorem C09_epytext_inline_conserves_partial :
-  forall (target_split : text -> option (text * text)) (link_target : etag -> text -> option text) (items : list mk),
-    well_formed false items = true ->
-    exists tree, colorize target_split link_target (show items) = (tree, []) /\ visible tree = shown items.
+   their character, of a link only the label (L{name}: the name), everything else unchanged and in order.
+   The two regular expressions of _colorize_link are oracles; their contract, for the targets / names `well_formed`
+   admits:  _TARGET_RE splits  "tail   <tgt>"  into (tail, tgt) when tail has no brace / angle bracket and does not end
+   in white space (the blanks before '<' are the only characters dropped);  a plain name has no '<...>' part;  the
+   clean-up accepts the target.  (Checked against the real regexes by the correspondence stream.) *)
+Theorem C09_epytext_inline_conserves :
+  forall (target_split : text -> option (text * text)) (link_target : etag -> text -> option text)
+         (good_target good_name : etag -> text -> bool),
+    (forall tag tail ws tgt, good_target tag tgt = true -> tail_ok tail = true -> spaces ws = true ->
+                             target_split (tail ++ ws ++ 60%N :: tgt ++ [62%N]) = Some (tail, tgt)) ->
+    (forall tag tgt, good_target tag tgt = true -> exists tg, link_target tag tgt = Some tg) ->
+    (forall tag name, good_name tag name = true -> target_split name = None /\ exists tg, link_target tag name = Some tg) ->
+    forall items : list mk,
+      well_formed good_target good_name false items = true ->
+      exists tree, colorize target_split link_target (show items) = (tree, []) /\ visible tree = shown items.
 Proof. exact colorize_conserves. Qed.
 
-(*  a B{b I{i}} {x} E{lb} S{alpha}  *)
+(*  a B{b I{i}} {x} E{lb} S{alpha} L{B{see} it  <m.f>} U{x}  *)
 Definition w_inline : list mk :=
   [MC 97; MC 32; MT 66 [MC 98; MC 32; MT 73 [MC 105]]; MC 32; MB [MC 120]; MC 32; ME [108; 98]; MC 32;
-   MS [97; 108; 112; 104; 97]]%N.
+   MS [97; 108; 112; 104; 97]; MC 32; ML 76 [MT 66 [MC 115; MC 101; MC 101]] [32; 105; 116] [32; 32] [109; 46; 102]; MC 32;
+   MN 85 [120]]%N.
+Definition w_split (t : text) : option (text * text) :=
+  if text_eqb t [32; 105; 116; 32; 32; 60; 109; 46; 102; 62]%N then Some ([32; 105; 116], [109; 46; 102])%N else None.
 Example C09_epytext_inline_hypotheses_satisfiable :
-  well_formed false w_inline = true /\
-  shown w_inline = [97; 32; 98; 32; 105; 32; 123; 120; 125; 32; 123; 32; 945]%N /\
-  snd (colorize (fun _ => None) (fun _ _ => None) (show w_inline)) = [].
+  well_formed (fun _ _ => true) (fun _ _ => true) false w_inline = true /\
+  shown w_inline = [97; 32; 98; 32; 105; 32; 123; 120; 125; 32; 123; 32; 945; 32; 115; 101; 101; 32; 105; 116; 32; 120]%N /\
+  snd (colorize w_split (fun _ t => Some t) (show w_inline)) = [] /\
+  visible (fst (colorize w_split (fun _ t => Some t) (show w_inline))) = shown w_inline.
 Proof. vm_compute. repeat split; reflexivity. Qed.
+
+(* ---- variables documented in a class / module docstring (extract_fields) --------------------------------------------- *)
+
+(* For every set of members the class / module already has and every field list: an @ivar / @cvar / @var / @type field
+   (the tag list and the kinds are regenerated from the live function) without a name is reported ("Missing field name");
+   with a name x its text is the docstring (the type, for @type) of an attribute called x and occurs in no other slot of
+   any attribute -- unless a later field for the same name and the same slot replaces it (Spec.Extract.xreplaced).
+   `_partial`: without that guard the statement is false (C09_extract_fields_refuted). *)
+Theorem C09_extract_fields_routed_partial :
+  forall (contents : list text) (fs : list field) (i : nat) (f : field),
+    nth_error fs i = Some f -> is_extract_tag (f_tag f) = true -> xreplaced fs i f = false ->
+    xrouted i f (fst (extract_fields contents fs)) (snd (extract_fields contents fs)).
+Proof. exact extract_routed. Qed.
+
+Local Open Scope string_scope.
+(* @ivar x: A  @cvar x: B  -- the first text is on no attribute, nothing is reported *)
+Theorem C09_extract_fields_refuted :
+  let fs := [fld "ivar" (Some "x"); fld "cvar" (Some "x")] in
+  attrs_occ 0 (fst (extract_fields [] fs)) = 0 /\ snd (extract_fields [] fs) = [].
+Proof. vm_compute. split; reflexivity. Qed.
+
+Example C09_extract_fields_example :
+  let fs := [fld "ivar" (Some "a"); fld "type" (Some "a"); fld "var" None; fld "note" None; fld "cvar" (Some "new")] in
+  forallb (fun i => match nth_error fs i with Some f => negb (xreplaced fs i f) | None => true end) (seq 0 5) = true /\
+  map (fun a => (xa_name a, xa_doc a, xa_type a, xa_created a)) (fst (extract_fields [T "a"; T "m"] fs))
+  = [(T "a", Some 0, Some 1, false); (T "m", None, None, false); (T "new", Some 4, None, true)] /\
+  snd (extract_fields [T "a"; T "m"] fs) = [2].
+Proof. vm_compute. repeat split; reflexivity. Qed.
+Local Close Scope string_scope.
+
+(* ---- the reST field splitter (_SplitFieldsTranslator) ------------------------------------------------------------------- *)
+
+(* For every field (name, body nodes), every translator state and every str.lower: visit_field appends fields and errors
+   in exactly one of four ways (Spec.RstSplit.field_split_ok): the field as it is (its body untouched); one field per
+   item of a well-formed consolidated bullet list (argument = the marked identifier, body = ALL the other nodes of the
+   item, the paragraph minus the identifier and the separator); one or two fields per item of a well-formed consolidated
+   definition list (definition -> body, classifier -> @type); or one error + (at most a @newfield marker) + the field
+   as it is.  Nothing else is possible: a body node can only leave through the argument, the separator, or a field. *)
+Theorem C09_rst_field_split :
+  forall (lower : text -> text) (name : text) (body : list rnode) (st : rstate),
+    let st' := visit_field lower name body st in
+    exists added errs,
+      rs_fields st' = rs_fields st ++ added /\ rs_errors st' = rs_errors st ++ errs /\
+      field_split_ok (fst (split_name name)) (snd (split_name name)) body added errs.
+Proof. exact visit_field_ok. Qed.
+
+(* ... and counted on the text: the body is the body of one produced field; or every list item reads
+   identifier ++ separator ++ text of the body of its field; or every definition-list item reads
+   identifier ++ classifier text (body of the @type field) ++ definition text (body of the field). *)
+Theorem C09_rst_field_split_conserves :
+  forall tagname arg body added errs,
+    field_split_ok tagname arg body added errs ->
+    (exists f, In f added /\ of_body f = body /\ of_newfield f = false)
+    \/ (exists items fs seps, body = [RElem RBulletList items] /\ added = fs /\
+          Forall3 (fun item f sep => exists a, of_arg f = Some a /\ astext item = a ++ sep ++ nodes_text (of_body f) /\ is_sep_or_nil sep)
+                  items fs seps)
+    \/ (exists items fss, body = [RElem RDefList items] /\ added = List.concat fss /\
+          Forall2 (fun item fs => match fs with
+                                  | [f] => exists a, of_arg f = Some a /\ astext item = a ++ nodes_text (of_body f)
+                                  | [f; ty] => exists a, of_arg f = Some a /\ of_arg ty = Some a /\
+                                                         astext item = a ++ nodes_text (of_body ty) ++ nodes_text (of_body f)
+                                  | _ => False
+                                  end) items fss).
+Proof. exact split_conserves_text. Qed.
+
+(*  :Parameters:  - `x`: d  <second paragraph>   gives   @param x: d  <second paragraph>  *)
+Example C09_rst_field_split_example :
+  let item := RElem RListItem [RElem RPara [RElem RTitleRef [RText [120%N]]; RText [58; 32; 100]%N]; RElem RPara [RText [50%N]]] in
+  rs_fields (visit_field (fun t => t) [112; 97; 114; 97; 109; 101; 116; 101; 114; 115]%N [RElem RBulletList [item]]
+                         {| rs_fields := []; rs_errors := []; rs_newfields := [] |})
+  = [{| of_tag := [112; 97; 114; 97; 109]%N; of_arg := Some [120%N];
+        of_body := [RElem RPara [RText [100%N]]; RElem RPara [RText [50%N]]]; of_newfield := false |}].
+Proof. vm_compute. reflexivity. Qed.
+
+(* ---- the epytext block structurer (parse over the token list of _tokenize) ----------------------------------------------- *)
+
+(* For every token list (whatever the tokenizer returned: tags, indentations -- known or not --, heading levels, bullets):
+   if the structurer does not crash, the tokens of the tree it builds, read in document order (a list item / field counts
+   as its bullet token), are the tokens it was given, in the same order, each at most once; and either ALL of them are
+   there, or an "Improper paragraph indentation" error (code 1) was reported -- the only way a token leaves the tree. *)
+Theorem C09_epytext_structure_keeps_tokens :
+  forall tks st errs seen,
+    EpyStruct.parse tks = Done st errs seen ->
+    exists t kept, final_tree st = Some t /\ tree_tokens t = kept /\ subseq kept (seq 0 (List.length tks)) /\
+                   (kept = seq 0 (List.length tks) \/ has_para_error errs).
+Proof. exact parse_keeps_tokens. Qed.
+
+Theorem C09_epytext_structure_no_error_all_tokens :
+  forall tks st seen,
+    EpyStruct.parse tks = Done st [] seen ->
+    exists t, final_tree st = Some t /\ tree_tokens t = seq 0 (List.length tks).
+Proof. exact parse_no_error_all_tokens. Qed.
+
+(* para / "- item" / its paragraph / "- item" / para at the outer indentation *)
+Definition w_tok (tag : tktag) (ind : option nat) (b : bkind) : token :=
+  {| tk_tag := tag; tk_indent := ind; tk_level := 0; tk_bullet := b; tk_comps := []; tk_last := 0%Z; tk_startline := 1 |}.
+Example C09_epytext_structure_example :
+  match EpyStruct.parse [w_tok TkPara (Some 0) BkUlist; w_tok TkBullet (Some 2) BkUlist; w_tok TkPara None BkUlist;
+                         w_tok TkBullet (Some 2) BkUlist; w_tok TkPara (Some 4) BkUlist; w_tok TkLBlock (Some 5) BkUlist;
+                         w_tok TkPara (Some 0) BkUlist] with
+  | Done st errs _ => errs = [] /\ option_map tree_tokens (final_tree st) = Some [0; 1; 2; 3; 4; 5; 6]
+  | Crash _ => False
+  end.
+Proof. vm_compute. split; reflexivity. Qed.
+
+(* The structurer CAN crash: "- z / (blank) / Topic / ===== / text" gives the tokens bullet(0) para(?) heading(0) para(0);
+   the heading is refused ("Headings must occur at the top level"), the stack is emptied down to the document whose
+   indentation is still unknown, a section with unknown indentation is pushed, and the next paragraph compares
+   `indent < None`: TypeError (the real parse raises it on this input; the docstring then falls back to plain text). *)
+Theorem C09_epytext_structure_crash_witness :
+  EpyStruct.parse [w_tok TkBullet (Some 0) BkUlist; w_tok TkPara None BkUlist; w_tok TkHeading (Some 0) BkUlist;
+                   w_tok TkPara (Some 0) BkUlist] = Crash 1.
+Proof. vm_compute. reflexivity. Qed.
